@@ -116,6 +116,23 @@ func c18(r *Report) {
 	}
 
 	r.Guard("C18.R1", "a configuration is validated completely before any listener state changes, and the change is made as a whole under the write lock", func() {
+		// reconfiguration leaves established connections alone: the handler closes no
+		// bucket it did not create itself in this call (the buckets of the replaced
+		// shapes are still in use by connections accepted earlier)
+		for _, f := range r.W.staticReach(sh) {
+			if fnName(f) == "(*M/trafficshape.Conn).Close" || fnName(f) == "(*M/trafficshape.Bucket).Close" {
+				continue
+			}
+			for _, c := range calls(f, "(*M/trafficshape.Bucket).Close") {
+				fresh := anyIn(w.backSlice(c.Common().Args[0], flowOpt{}), func(v ssa.Value) bool { return isCallValue(v, "M/trafficshape.NewBucket") })
+				live := anyIn(w.backSlice(c.Common().Args[0], flowOpt{}), func(v ssa.Value) bool {
+					fa, ok := v.(*ssa.FieldAddr)
+					return ok && (fieldObj(fa).Name() == "Shapes" || fieldObj(fa).Name() == "M")
+				})
+				r.Decide("flow", "reconfiguration closes no bucket in use: "+site(f, c), fresh && !live, "only a bucket made in this call is closed", "the reconfiguration path closes a bucket reached through the listener's current shapes: connections accepted before the change still write through it and their next shaped response fails", c.Pos())
+			}
+		}
+
 		g := G(sh)
 		var muts []ssa.Instruction
 		for _, in := range instrs(sh) {
